@@ -7,6 +7,7 @@
 package layers
 
 import (
+	"errors"
 	"encoding/binary"
 
 	"github.com/gopacket/gopacket"
@@ -24,6 +25,9 @@ func (e *EtherIP) LayerType() gopacket.LayerType { return LayerTypeEtherIP }
 
 // DecodeFromBytes decodes the given bytes into this layer.
 func (e *EtherIP) DecodeFromBytes(data []byte, df gopacket.DecodeFeedback) error {
+	if len(data) < 2 {
+		return errors.New("EtherIP header too small")
+	}
 	e.Version = data[0] >> 4
 	e.Reserved = binary.BigEndian.Uint16(data[:2]) & 0x0fff
 	e.BaseLayer = BaseLayer{data[:2], data[2:]}
